@@ -89,3 +89,30 @@ PROPS["C14"] = {
                     "tiers": {"quick": T(3000, 2, timeout=400), "thorough": T(60000, 4, timeout=3000)}},
     },
 }
+
+PROPS["C15"] = {
+    "level": "exploration",
+    "technique": "differential property testing vs dns.Msg.Pack on an aliasing-preserving twin built from a message recipe; pristine-twin immutability witness; pool-state sequences; concurrent packs (-race); native fuzzing (thorough)",
+    "level_text": ("Message recipes (70+ record templates over the library's types, OPT with every option kind, SVCB/HTTPS params, multiple/misplaced/aliased OPTs, nil/typed-nil/foreign/PrivateRR records, unpackable names, rcodes -1..4096, "
+                   "0-3 questions, sizes around 4096, Compress on/off) are built three times: TryPack/PackClone output must equal the library's bytes whenever handled, decline before any output otherwise, leave the message deep-equal to a pristine twin, "
+                   "expose cap==len; sequences and a 0..130-name sweep check carry-over through the pooled state; concurrent workers check that each consumer sees only its own bytes. Exploration."),
+    "level_note": "Trusted: miekg/dns Pack as the reference; reflect.DeepEqual as the immutability witness. Concurrent interleavings are sampled. The response-writer/cache-entry call sites are covered only through TryPack/PackClone themselves.",
+    "rule": ("evaluations = messages (or sequences / concurrent runs). Non-trivial = handled with >=2 records and compression, an OPT, or size within 64 B of 4096; or declined for a reason other than size (nil/foreign/private/fake-OPT/unpackable name/out-of-range rcode); "
+             "sequences with >=2 handled messages; distinct = hash(class list, size bucket, table size)."),
+    "assumptions": ["sync.Pool reuse on one locked OS thread is what makes sequence carry-over observable; it is not guaranteed by the runtime"],
+    "units": {
+        "pack": {"pkg": "./internal/wire", "run": "^TestVerifC15Pack$",
+                 "tiers": {"quick": T(6000, 6, timeout=400), "thorough": T(250000, 10, timeout=3000)},
+                 "floors": {"C15.pack": {"handled": 0.3, "declined": 0.1, "opt": 0.2, "near-4096": 0.003, "aliased-record": 0.05}}},
+        "sequence": {"pkg": "./internal/wire", "run": "^TestVerifC15Sequence$",
+                     "tiers": {"quick": T(1500, 4, timeout=400), "thorough": T(50000, 6, timeout=3000)},
+                     "floors": {"C15.sequence": {"multi-handled": 0.3, "name-heavy-in-sequence": 0.1}}},
+        "dictionary": {"pkg": "./internal/wire", "run": "^TestVerifC15Dictionary$", "engine": "gotest",
+                       "tiers": {"quick": T(1, 1, timeout=300), "thorough": T(1, 1, timeout=300)}},
+        "concurrent": {"pkg": "./internal/wire", "run": "^TestVerifC15Concurrent$", "race": True,
+                       "tiers": {"quick": T(60, 4, timeout=400), "thorough": T(2500, 6, timeout=3000)},
+                       "floors": {"C15.concurrent": {"mid-pack-failure-present": 0.1}}},
+        "fuzz": {"pkg": "./internal/wire", "engine": "fuzz", "fuzz": "FuzzVerifC15Pack", "run": "^FuzzVerifC15Pack$",
+                 "tiers": {"thorough": {"fuzztime": 180, "timeout": 400}}},
+    },
+}
